@@ -43,6 +43,8 @@ PREDICT = {
     "lockholder": [(None, 1, 0)],    # sleeping in a callback while holding the receive lock; the interrupt unwinds it
     "transfer": [(0, 1, 0)],         # send raises OSError once the connection is gone
     "endmarker_raiser": [(None, 1, 0)],   # a callback that raises when it is handed its endmarker by the epilogue; the body sleeps
+    "callback_sysexit": [(0, 1, 0)], # a callback raised SystemExit in the receiver thread; the body blocks in receive()
+    "nondaemon_thread": [],          # the body has ended; a non-daemon thread started by it remains (outside the pool: not modelled)
     "sender": [(0, 1, 0)],           # a stream of small items: unflushed bytes stay in the write buffer when the peer dies
     "sender_swallow": [(0, 1, 0)],
 }
@@ -176,7 +178,7 @@ def main(tier, seed, replay=None):
 
 
 def real_layer(ck, tier, rng):
-    acts = ["idle", "blocked", "busy", "sleeping", "swallow", "threads", "nonmain_busy", "lockholder", "transfer", "sender", "sender_swallow", "endmarker_raiser"]
+    acts = ["idle", "blocked", "busy", "sleeping", "swallow", "threads", "nonmain_busy", "lockholder", "transfer", "sender", "sender_swallow", "endmarker_raiser", "callback_sysexit", "nondaemon_thread"]
     hows = ["kill", "kill", "exit", "close"]
     jobs = []
     if tier == "quick":
